@@ -34,7 +34,7 @@ func init() { core.Register(c05{}) }
 
 func (c05) ID() string { return "C05" }
 func (c05) Rule() string {
-	return "plans: chain length 1-4 with unique subject tokens, a result vector in {OK, NonRevokable, Unknown, Revoked}^n with method annotations (OCSP, CRL, OCSP-fallback-CRL) and per-server errors, or a validator-level error (scripted or injected at the validator's fault point), or a mis-sized answer (nil / shorter than the chain, nil error); context-aware validator or deprecated client; revocation action enforce / log / skip; scheme notary.x509 or signing-authority; JWS / COSE. 1-3 rounds on one long-lived verifier, the validator's answers changing between rounds (a certificate revoked later, the service failing later, recovering later). non-trivial: the vector is not all-OK or the answer is faulty; distinct: hash of (vector, methods, fault, interface, action, scheme, verdict)"
+	return "plans (half of the signing-authority JWS ones with an authentic signing time of .500 s, re-signed by hand): chain length 1-4 with unique subject tokens, a result vector in {OK, NonRevokable, Unknown, Revoked}^n with method annotations (OCSP, CRL, OCSP-fallback-CRL) and per-server errors, or a validator-level error (scripted or injected at the validator's fault point), or a mis-sized answer (nil / shorter than the chain, nil error); context-aware validator or deprecated client; revocation action enforce / log / skip; scheme notary.x509 or signing-authority; JWS / COSE. 1-3 rounds on one long-lived verifier, the validator's answers changing between rounds (a certificate revoked later, the service failing later, recovering later). non-trivial: the vector is not all-OK or the answer is faulty; distinct: hash of (vector, methods, fault, interface, action, scheme, verdict)"
 }
 func (c05) Components() map[string]string {
 	return map[string]string{
@@ -77,6 +77,7 @@ func (c05) Gen(r *rand.Rand, tier string, idx int) *core.Plan {
 	w["action"] = int64(core.Pick(r, 0, 0, 1, 2)) // enforce log skip
 	w["scheme"] = int64(r.IntN(2))
 	w["format"] = int64(r.IntN(2))
+	w["fraction"] = int64(idx % 2)
 	w["entry"] = int64(r.IntN(2))      // OCI or blob entry point
 	w["plugin"] = int64(r.IntN(3) / 2) // a verification plugin that owns trusted identity only
 	w["base"] = int64(r.IntN(3))       // strict / permissive / audit as the level the revocation action overrides
@@ -135,6 +136,20 @@ func (l c05) Exec(env *core.Env) *core.Result {
 			mgr = sm
 		}
 		sig, err := world.SignPayload(chain, world.PayloadFor(desc), so)
+		wantSigningTime := signedAt.Truncate(time.Second)
+		if err == nil && w["fraction"] == 1 && w["scheme"] == 1 && format == world.JWS {
+			// an envelope from another producer (a signing plugin, say) whose authentic signing time carries a
+			// fraction of a second, as the format allows: that instant is what the validator is consulted with
+			wantSigningTime = wantSigningTime.Add(500 * time.Millisecond)
+			if re, rerr := world.ResignJWS(chain, sig, func(p map[string]any) {
+				p["io.cncf.notary.authenticSigningTime"] = wantSigningTime.UTC().Format("2006-01-02T15:04:05.000Z07:00")
+			}); rerr == nil {
+				sig = re
+				res.Probe("authentic_signing_time_with_a_fraction_of_a_second")
+			} else {
+				wantSigningTime = signedAt.Truncate(time.Second)
+			}
+		}
 		if err != nil {
 			res.Violate("HARNESS/sign", "", "%v", err)
 			return
@@ -252,8 +267,8 @@ func (l c05) Exec(env *core.Env) *core.Result {
 					res.Violate("C05/validator-got-incomplete-chain", key, "the validator received %d certificates, the signature's chain has %d (or order differs)", len(call.CertChain), len(want))
 				}
 				if w["scheme"] == 1 {
-					if !call.AuthenticSigningTime.Equal(signedAt.Truncate(time.Second)) {
-						res.Violate("C05/authentic-signing-time-not-passed", key, "signing-authority signature: validator received signing time %v, signed at %v", call.AuthenticSigningTime, signedAt)
+					if !call.AuthenticSigningTime.Equal(wantSigningTime) {
+						res.Violate("C05/authentic-signing-time-not-passed", key, "signing-authority signature: validator received signing time %v, the envelope says %v", call.AuthenticSigningTime, wantSigningTime)
 					}
 				} else if !call.AuthenticSigningTime.IsZero() {
 					res.Violate("C05/signing-time-passed-for-x509-scheme", key, "notary.x509 signature: validator received signing time %v", call.AuthenticSigningTime)
